@@ -219,7 +219,9 @@ func (m *FloodSub) execPublish(prevHopPeerID peer.ID, pubMsg *publishChMsg) {
 		}
 
 		peer, ok := m.peers[pid]
-		if ok {
+		// a stream added with AddPeerStream has no context until the
+		// Execute loop has started its session.
+		if ok && peer.ctx != nil {
 			peer.writePacket(pkt)
 		}
 	}
